@@ -133,6 +133,12 @@ pub fn pcorpus() -> PCorpus {
             f(4, Int32, Single),
             f(5, Msg("Peer"), Optional),
             f(6, String, Repeated),
+            // repeated scalars inside the recursive message: packed runs at any nesting depth
+            f(7, Int64, Repeated),
+            f(8, Fixed32, Repeated),
+            f(9, Enum("Kind"), Repeated),
+            f(10, Sint32, RepeatedUnpacked),
+            f(11, Double, Repeated),
         ],
     });
     c.msgs.push(PMsg { name: "Peer", fields: vec![f(1, Msg("Node"), Optional), f(2, Bytes, Single)] });
